@@ -116,7 +116,7 @@ def run(chk):
     thorough = chk.tier == "thorough"
     chk.rule = RULE
     for k in fw.known_findings("C11"):
-        if k["status"] == "open":
+        if k["status"] == "open" and "ops" in k["replay"]:
             ans = fw.run_oracle(k["replay"]["ops"], "c11kf")
             if [a.get("out") for a in ans] == k["replay"]["observed_out"]:
                 chk.known(k["id"], k["observed"])
